@@ -1,6 +1,7 @@
 import TTModel.C20_GMRF
 import TTProofs.Lemmas.ScalarReal
 import Mathlib.Analysis.SpecialFunctions.Gamma.Basic
+import Mathlib.MeasureTheory.Integral.IntegralEqImproper
 /-!
 # C20 — integrating the precision out of `Gamma(τ; a, b) · GMRF(x | τ)`
 -/
@@ -27,5 +28,32 @@ theorem integral_exp_gamma_kernel (c₀ s r : ℝ) (hs : 0 < s) (hr : 0 < r) :
     Real.rpow_def_of_pos hr]
   rw [show Real.log r * s = s * Real.log r by ring]
   field_simp
+
+/-- log density of the inverse-gamma distribution with shape `a` and scale `b` (`lgA = log Γ(a)`) -/
+noncomputable def invGammaLogPdf (a b lgA θ : ℝ) : ℝ := a * Real.log b - lgA - (a + 1) * Real.log θ - b / θ
+
+/-- `∫_0^∞ exp(c₀ − (s+1) log θ − r/θ) dθ = exp(c₀) · Γ(s) / r^s` (substitution `y = 1/θ`) -/
+theorem integral_exp_invgamma_kernel (c₀ s r : ℝ) (hs : 0 < s) (hr : 0 < r) :
+    ∫ θ in Ioi (0 : ℝ), Real.exp (c₀ - (s + 1) * Real.log θ - r / θ)
+      = Real.exp (c₀ + Real.log (Real.Gamma s) - s * Real.log r) := by
+  rw [← integral_exp_gamma_kernel c₀ s r hs hr,
+    ← integral_comp_rpow_Ioi (fun y => Real.exp (c₀ + (s - 1) * Real.log y - r * y)) (p := -1) (by norm_num)]
+  apply setIntegral_congr_fun measurableSet_Ioi
+  intro x hx
+  have hx0 : (0 : ℝ) < x := hx
+  simp only [abs_neg, abs_one, one_mul, smul_eq_mul]
+  rw [Real.log_rpow hx0, Real.rpow_neg_one, Real.rpow_def_of_pos hx0, ← Real.exp_add]
+  congr 1
+  rw [div_eq_mul_inv]
+  ring
+
+theorem sum_zipWith_neg_div (θ : ℝ) : ∀ (ks : List ℤ) (ds : List ℝ),
+    (List.zipWith (fun k d => -(TT.C08.choose2 k : ℝ) * d / θ) ks ds).sum
+      = -(List.zipWith (fun k d => (TT.C08.choose2 k : ℝ) * d) ks ds).sum / θ
+  | [], _ => by simp
+  | _ :: _, [] => by simp
+  | k :: ks, d :: ds => by
+      simp only [List.zipWith_cons_cons, List.sum_cons, sum_zipWith_neg_div θ ks ds]
+      ring
 
 end TT.C20
